@@ -53,6 +53,16 @@ def body(ctx):
             spec = dict(seed=1, maxdata=4096, rid='plus', frag='bytes1', ops=[dict(api='stat', path='/s', st=[a, b, a ^ b])])
             runs.append(('sync', spec, scen.run(spec, 'sync'), None))
             runs.append(('async', spec, scen.run(spec, 'async'), None))
+    # an operation aborted in the middle of its reply (the device falls silent), then the same kind of operation again on the same connection
+    for k2, frag in enumerate(['whole', 'random', 'bytes1']):
+        for mode in ('sync', 'async'):
+            spec = dict(seed=70 + k2, maxdata=4096, rid='plus', frag=frag, ops=[
+                dict(api='stat', path='/s1', st=[0x41414141, 0x42424242, 0x43434343], cuts=[7], budget=3, read_timeout_s=1.0),
+                dict(api='stat', path='/s2', st=[1, 2, 3]),
+                dict(api='list', path='/d1', entries=[[b'aa'.hex(), 7, 8, 9], [b'bbb'.hex(), 10, 11, 12]], cuts=[25], budget=3, read_timeout_s=1.0),
+                dict(api='list', path='/d2', entries=[[b'c'.hex(), 13, 14, 15]]),
+                dict(api='stat', path='/s3', st=[4, 5, 6])])
+            runs.append((mode, spec, scen.run(spec, mode), None))
     for j in range(30 if ctx.quick else 600):
         n = rng.choice([0, 1, 2, 5, 40, 300] if j % 5 == 0 else [0, 1, 2, 3, 8])
         ents = []
